@@ -165,15 +165,18 @@ class Guard:
     """Snapshot + write-protect a set of arrays; later assert they are bit-identical and that no
     result array shares memory with them."""
 
-    def __init__(self):
+    def __init__(self, protect=True):
+        # protect=False: snapshot only (the buffers stay writeable, as a caller's arrays normally are)
         self.items = []
+        self.protect = protect
 
     def add(self, name, arr):
         if arr is None or not isinstance(arr, np.ndarray):
             return arr
         snap = (arr.dtype.str, arr.shape, arr.tobytes())
         try:
-            arr.setflags(write=False)
+            if self.protect:
+                arr.setflags(write=False)
         except ValueError:
             pass
         self.items.append((name, arr, snap))
